@@ -192,3 +192,42 @@ Example write_c_str_example :
   write_c_str 2 4 [9;9;7;7;7;7;9;9]%N [[104;105]%N; []; [33]%N] = ([9;9;104;105;33;0;9;9]%N, 4%N, true)
   /\ write_c_str 2 3 [9;9;7;7;7;9;9]%N [[104;105]%N; []; [33]%N] = ([9;9;104;105;7;9;9]%N, 4%N, false).
 Proof. split; vm_compute; reflexivity. Qed.
+
+(** * The two-call idiom of the C API: ask, then retry with the reported size.
+    Whatever the first call did (any buffer, any size, success or not), a
+    second call on ANY buffer of exactly the reported size succeeds, reports
+    the same size and writes the whole text and its NUL; and a call succeeds
+    if and only if its buffer is at least the reported size. *)
+Definition write_c_str_retry_stmt : Prop :=
+  forall (off : nat) (n : N) (m : list N) (frags : list (list N)) (off2 : nat) (m2 : list N),
+  off + N.to_nat n <= length m ->
+  (total frags < usize_max)%N ->
+  let '(_, nw1, ok1) := write_c_str off n m frags in
+  (ok1 = true <-> (nw1 <= n)%N)
+  /\ (off2 + N.to_nat nw1 <= length m2 ->
+      let '(m2', nw2, ok2) := write_c_str off2 nw1 m2 frags in
+      ok2 = true /\ nw2 = nw1
+      /\ (forall k, k < length (concat frags) -> nth_error m2' (off2 + k) = nth_error (concat frags) k)
+      /\ nth_error m2' (off2 + length (concat frags)) = Some 0%N
+      /\ length m2' = length m2
+      /\ (forall j, j < off2 \/ off2 + N.to_nat nw1 <= j -> nth_error m2' j = nth_error m2 j)).
+Lemma write_c_str_retry_proof : write_c_str_retry_stmt.
+Proof.
+  intros off n m frags off2 m2 Hwin Hmax.
+  pose proof (write_c_str_spec_proof off n m frags Hwin Hmax) as H1.
+  destruct (write_c_str off n m frags) as [[m' nw1] ok1].
+  destruct H1 as (_ & _ & Hnw & Hok & _). split.
+  - rewrite Hok, Hnw. rewrite N.leb_le. reflexivity.
+  - intros Hwin2.
+    pose proof (write_c_str_spec_proof off2 nw1 m2 frags Hwin2 Hmax) as H2.
+    destruct (write_c_str off2 nw1 m2 frags) as [[m2' nw2] ok2].
+    destruct H2 as (Hl & Hf & Hnw2 & Hok2 & Hbody).
+    assert (ok2 = true) as Ht by (rewrite Hok2, Hnw; apply N.leb_refl).
+    destruct (Hbody Ht) as [Hb Hz].
+    split; [exact Ht|]. split; [congruence|]. auto.
+Qed.
+
+Example write_c_str_retry_example :
+  write_c_str 2 3 [9;9;7;7;7;9;9]%N [[104;105]%N; []; [33]%N] = ([9;9;104;105;7;9;9]%N, 4%N, false)
+  /\ write_c_str 1 4 [8;7;7;7;7;8]%N [[104;105]%N; []; [33]%N] = ([8;104;105;33;0;8]%N, 4%N, true).
+Proof. split; vm_compute; reflexivity. Qed.
